@@ -22,6 +22,7 @@ CONSTANTS NetKinds,     \* subset of {"drop","dup","hold1","hold2","split2","spl
           AdvBudget,
           MaxOrd,       \* operations address ordinals 1..MaxOrd of a (direction, label)
           FpCs, FpSs,   \* expected-fingerprint modes explored: subsets of {"none","match","mismatch"}
+          KindSs,       \* key type of the genuine server's certificate: subset of {"ec", "nonec"} (see NonEcCerts)
           IdCs, IdSs,   \* certificate actually held by the client / server endpoint: "certC"/"certS" or "certM"
           TickQuiet,    \* TRUE: retransmission ticks fire only when the network is quiet (tick >> transit time);
                         \* FALSE: also while at most TickSlack datagrams of the ticking side are still in flight
@@ -40,15 +41,15 @@ RecvOf(d) == IF d = "C>S" THEN "S" ELSE "C"
 Lab(m) == IF m.nfrag > 1 THEN m.t \o "#" \o ToString(m.frag) ELSE m.t
 
 \* expected fingerprint as configured by signaling: none / the genuine peer's / somebody else's
-ExpFp(mode, e) == IF mode = "none" THEN "none"
-                  ELSE IF mode = "match" THEN (IF e = "C" THEN "certS" ELSE "certC")
-                  ELSE "certX"
+ExpFp(mode, e, k) == IF mode = "none" THEN "none"
+                     ELSE IF mode = "match" THEN GenuineK(Peer(e), k)
+                     ELSE "certX"
 
 Init ==
-  /\ cfg \in [fpC : FpCs, fpS : FpSs, idC : IdCs, idS : IdSs]
+  /\ cfg \in [fpC : FpCs, fpS : FpSs, idC : IdCs, idS : IdSs, kS : KindSs]
   /\ ep = [e \in E |->
-             IF e = "C" THEN InitEp("C", CertOfId(cfg.idC, "C"), AlsoOfId(cfg.idC, "C"), KeyOfId(cfg.idC, "C"), IF cfg.idC = "certC" THEN "dhC" ELSE "dhMc", "rC", ExpFp(cfg.fpC, "C"))
-                        ELSE InitEp("S", CertOfId(cfg.idS, "S"), AlsoOfId(cfg.idS, "S"), KeyOfId(cfg.idS, "S"), IF cfg.idS = "certS" THEN "dhS" ELSE "dhMs", "rS", ExpFp(cfg.fpS, "S"))]
+             IF e = "C" THEN InitEp("C", CertOfId(cfg.idC, "C"), AlsoOfId(cfg.idC, "C"), KeyOfId(cfg.idC, "C"), IF cfg.idC = "certC" THEN "dhC" ELSE "dhMc", "rC", ExpFp(cfg.fpC, "C", cfg.kS))
+                        ELSE InitEp("S", CertOfIdK(cfg.idS, "S", cfg.kS), AlsoOfIdK(cfg.idS, "S", cfg.kS), KeyOfIdK(cfg.idS, "S", cfg.kS), IF cfg.idS = "certS" THEN "dhS" ELSE "dhMs", "rS", ExpFp(cfg.fpS, "S", cfg.kS))]
   /\ outbox = <<>>
   /\ net = [d \in Dir |-> <<>>]
   /\ held = [d \in Dir |-> <<>>]
@@ -281,12 +282,16 @@ RefFinalLost == \E i \in 1..Len(ops) : ops[i].dir = "S>C" /\ ops[i].msg = "FIN" 
 ConvergeRefS == <>[]((ep["C"].st = "Connected" /\ ep["S"].st = "Connected") \/ RefFinalLost)
 
 \* C02
-DhOf(cert) == CASE cert = "certS" -> "dhS" [] cert = "certC" -> "dhC" [] cert = "certM" -> "dhM" [] OTHER -> "dhX"
+DhOf(cert) == CASE cert \in {"certS", "certSn"} -> "dhS" [] cert = "certC" -> "dhC" [] cert = "certM" -> "dhM" [] OTHER -> "dhX"
 Auth       == \A e \in E : AuthOf(ep[e])
 AuthClient == AuthOf(ep["C"])
 AuthKey    == \A e \in E : (ep[e].st = "Connected" /\ ep[e].expFp # "none") => ep[e].peerDh = DhOf(ep[e].expFp)
 AuthKeyClient == (ep["C"].st = "Connected" /\ ep["C"].expFp # "none") => ep["C"].peerDh = DhOf(ep["C"].expFp)
 FailClosed == \A e \in E : FailClosedOf(ep[e])
+\* no possession proof can be verified with a non-EC certificate key: whoever presents such a certificate - its
+\* owner included - is never connected to, keys are never derived from its handshake
+NonEcNeverConnects == \A e \in E : (ep[e].peerCert \in NonEcCerts) => (ep[e].st # "Connected" /\ ep[e].keys = NoMaster)
+NonEcClientFails   == (cfg.kS = "nonec" /\ cfg.fpC = "match") => ep["C"].st # "Connected"
 
 ---------------------------------------------------------------------------
 (* Emission                                                                 *)
